@@ -201,6 +201,7 @@ CHECKS = {
             {"name": "TestC08Triples", "enum": True},
             {"name": "TestC08Spacing", "enum": True},
             {"name": "TestC08RawSpacing", "enum": True},
+            {"name": "TestC08Scale", "enum": True},
             K,
         ],
         "assumptions": ["the reference model (harness/rm.go) is the executable reading of the operator table in C08",
